@@ -231,7 +231,7 @@ class pCN(Sampler):
 
         # accept/reject
         u_theta = np.log(np.random.rand())
-        if (u_theta <= alpha) and (not np.isnan(loglike_eval_star)):
+        if (u_theta <= alpha) and (not np.isnan(loglike_eval_star)) and (not np.isinf(loglike_eval_star)):
             x_next = x_star
             loglike_eval_next = loglike_eval_star
             acc = 1
